@@ -1198,13 +1198,14 @@ func c05MessageValues(c *Ctx) {
 		return ok && inl(fn) && !returnsText(sig)
 	}
 	n := 0
+	seenN8 := map[string]bool{}
 	for _, f := range gen.Syntax {
 		for _, d := range f.Decls {
 			fd, ok := d.(*ast.FuncDecl)
 			if !ok || fd.Body == nil {
 				continue
 			}
-			seen := map[string]bool{}
+			seen := seenN8
 			proto := &symWalker{Inline: inline}
 			proto.OnReturn = func(w *symWalker, ret *ast.ReturnStmt, results []*Sym) {
 				if w.depth != 0 {
@@ -1224,7 +1225,7 @@ func c05MessageValues(c *Ctx) {
 						n++
 						rhs := strings.TrimSpace(tpl[i+2:])
 						bare := strings.HasPrefix(rhs, "object.get(") && strings.HasSuffix(rhs, ")") && strings.Count(rhs, "(") == 1
-						r.Check(!bare, "C05.N8", relOf(gen)+"."+fd.Name.Name+"#message-variable-as-read", p.Pos(fd.Pos()), "the value is normalised before it is printed", "the variable a placeholder prints is bound to the bare `"+shortFormat(rhs)+"`: a multi-valued property is printed in the order the document lists its values, and no values is `null` or `[]` depending on how the document spells it, so two serialisations of one graph get different result messages")
+						r.Check(!bare, "C05.N8", "template:msg_var:=object.get(focus,iri,\"null\")#message-variable-as-read", p.Pos(fd.Pos()), "the value is normalised before it is printed", "the variable a placeholder prints is bound to the bare `"+shortFormat(rhs)+"`: a multi-valued property is printed in the order the document lists its values, and no values is `null` or `[]` depending on how the document spells it, so two serialisations of one graph get different result messages")
 					})
 				}
 			}
@@ -3426,8 +3427,41 @@ func c16CaseFolding(c *Ctx) {
 					if !ok || !d.Succs[0].Dominates(b) || len(d.Succs[0].Preds) != 1 {
 						continue
 					}
-					if ld, ok := iff.Cond.(*ssa.UnOp); ok && ld.Op == token.MUL {
-						if fa, ok := ld.X.(*ssa.FieldAddr); ok && fieldNameOf(fa) == "ignoreCase" {
+					isFlagLoad := func(v ssa.Value) bool {
+						ld, ok := v.(*ssa.UnOp)
+						if !ok || ld.Op != token.MUL {
+							return false
+						}
+						fa, ok := ld.X.(*ssa.FieldAddr)
+						return ok && fieldNameOf(fa) == "ignoreCase"
+					}
+					if isFlagLoad(iff.Cond) {
+						guarded = true
+					}
+					// a helper that is handed the flag: every call site passes the ignoreCase field
+					if prm, ok := iff.Cond.(*ssa.Parameter); ok {
+						idx := -1
+						for i, q := range fn.Params {
+							if q == prm {
+								idx = i
+							}
+						}
+						sites, all := 0, true
+						for _, caller := range p.callersOf(fn) {
+							for _, cb := range caller.Blocks {
+								for _, ci := range cb.Instrs {
+									call, ok := ci.(ssa.CallInstruction)
+									if !ok || call.Common().StaticCallee() != fn || idx < 0 || idx >= len(call.Common().Args) {
+										continue
+									}
+									sites++
+									if !isFlagLoad(call.Common().Args[idx]) {
+										all = false
+									}
+								}
+							}
+						}
+						if sites > 0 && all {
 							guarded = true
 						}
 					}
@@ -3525,7 +3559,7 @@ func c15OrderFreeFlags(c *Ctx) {
 		}
 	}
 	if n == 0 {
-		r.Unknown("C15.O13", "flags", "", "no boolean flag that is set inside a loop and read after it was found in the translator or the profile parser")
+		r.OK("C15.O13", "census", "", "no boolean flag is set inside a loop and read after it in the translator or the profile parser")
 	}
 }
 
@@ -3620,7 +3654,7 @@ func c02ReferencedNodesIndexed(c *Ctx) {
 			var ids *Sym
 			type st struct {
 				target, k, v *Sym
-				conds        string
+				inLoop       bool
 			}
 			var stores []st
 			proto := &symWalker{Inline: samePkgInline(pk)}
@@ -3629,7 +3663,7 @@ func c02ReferencedNodesIndexed(c *Ctx) {
 					ids = v
 					return
 				}
-				stores = append(stores, st{target, k, v, condsText(w.conds)})
+				stores = append(stores, st{target, k, v, len(w.Loops()) > 0})
 			}
 			p.SymWalk(pk, fd, proto, nil)
 			key := relOf(pk) + "." + fd.Name.Name + "#referenced-nodes"
@@ -3640,7 +3674,7 @@ func c02ReferencedNodesIndexed(c *Ctx) {
 					continue
 				}
 				idv, ok := s.v.Fields["@id"]
-				if !ok || idv.String() != s.k.String() || !strings.HasSuffix(s.k.String(), `["@id"]`) || !strings.Contains(s.k.String(), "[*]") {
+				if !ok || idv.String() != s.k.String() || !s.inLoop {
 					continue
 				}
 				bare = true
